@@ -5,6 +5,7 @@ import AnonCreds.Model.Registry
 import AnonCreds.Model.Sigma
 import AnonCreds.Model.Verify
 import AnonCreds.Model.Transcript
+import AnonCreds.Model.Range
 /-
 Line-protocol driver: one request per line on stdin, one reply per line on stdout.
 Unknown or malformed requests answer `bad-op` (never a default value).
@@ -231,6 +232,24 @@ def transcriptOp (toks : List String) : Option String :=
     | _, _, _, _, _ => none
   | _ => none
 
+/-- range statements (C08): `rg.check v lo up` with `-` for a missing bound -/
+def rangeOp (toks : List String) : Option String :=
+  open AC.Range in
+  let optInt : String → Option (Option Int) := fun s => if s = "-" then some none else (s.toInt?).map some
+  match toks with
+  | ["rg.check", v, lo, up] =>
+    match v.toInt?, optInt lo, optInt up with
+    | some v, some lo, some up =>
+      let acc := proverAccepts v lo up
+      let sat := verifierSatisfiable rOrder v lo up
+      some (s!"create={if acc then "ok" else "err"} verify={if acc then (if sat then "ok" else "err") else "-"} satisfiable={sat}")
+    | _, _, _ => none
+  | ["rg.adjusted", v, lo, up] =>
+    match v.toInt?, lo.toInt?, up.toInt? with
+    | some v, some lo, some up => some s!"{adjustedLower v lo} {adjustedUpper v up}"
+    | _, _, _ => none
+  | _ => none
+
 /-! ### stateful part: issuer registry (C13, C06) -/
 
 structure RegD where
@@ -303,6 +322,9 @@ def answer (d : DState) (line : String) : DState × String :=
   | some r => (d, r)
   | none =>
   match transcriptOp toks with
+  | some r => (d, r)
+  | none =>
+  match rangeOp toks with
   | some r => (d, r)
   | none =>
   match regOp d toks with
